@@ -189,6 +189,52 @@ def writer_keys(ctx, cq: str, method: str = "to_dict") -> tuple[dict[tuple, set[
             for path, keys in full.items():
                 for key in sorted(keys - zero.get(path, set())):
                     lost.append(f"{k} = 0 ({ann}): key '{key}' is not written")
+    # an optional attribute that is absent takes only its own key with it: the other attributes are still written
+    first = run({})
+    owner: dict[tuple, set[str]] = {}
+
+    def _owners(v: Any, acc: set[str], depth: int = 0) -> None:
+        if isinstance(v, U):
+            n = str(v)
+            for sep in ".[(":
+                n = n.split(sep)[0]
+            acc.add(n)
+        elif isinstance(v, dict) and depth < 3:
+            for a, b in v.items():
+                _owners(a, acc, depth + 1)
+                _owners(b, acc, depth + 1)
+        elif isinstance(v, (list, tuple, set)) and depth < 3:
+            for b in v:
+                _owners(b, acc, depth + 1)
+
+    def _collect(d: Any, path: tuple) -> None:
+        if not isinstance(d, dict):
+            return
+        for key, v in d.items():
+            if isinstance(key, str):
+                acc: set[str] = set()
+                _owners(v, acc)
+                owner[(path, key)] = acc
+                if isinstance(v, dict):
+                    _collect(v, path + (key,))
+
+    _collect(first, ())
+    for k, st in sorted(fields.items()):
+        ann = unparse(st.annotation)
+        words = ann.replace("|", " ").replace("[", " ").replace("]", " ").replace(",", " ").split()
+        if "None" not in words and "Optional" not in words:
+            continue
+        try:
+            absent = _nested_keys(run({k: None}))
+        except AnalysisError:
+            continue
+        for path in sorted(full):
+            if path not in absent and path:
+                continue      # the whole section went away: judged at the key of the section itself
+            for key in sorted(full[path] - absent.get(path, set())):
+                own = owner.get((path, key), set())
+                if own and k not in own:
+                    lost.append(f"{k} = None ({ann}): key '{'/'.join(path + (key,))}', which is written from {', '.join(sorted(own))}, is not written")
     return full, lost
 
 
